@@ -6,6 +6,7 @@ package main
 // the direct property oracles (each tagged with the property it belongs to).
 
 import (
+	"errors"
 	"bytes"
 	"context"
 	"encoding/binary"
@@ -148,6 +149,7 @@ type srvScen struct {
 	tokens   map[string][]tokIssue      // ip16 hex -> tokens issued
 	announced map[string]map[string]int // ih hex -> raw ip hex -> port
 	intro    map[string]bool            // id/addrkey introduced by a direct event
+	pendingTx map[string]bool           // addr|t of the server's own queries that are really outstanding (harness truth)
 	answered map[string]bool            // id@addr that really answered one of the server's own queries (harness truth)
 	expectW  int                        // datagrams expected so far
 	seenW    int                        // writes already attributed
@@ -168,7 +170,7 @@ type tokIssue struct {
 }
 
 func (r *Run) newSrvScen(o srvOpts) *srvScen {
-	sc := &srvScen{r: r, o: o, mute: o.mute, tokens: map[string][]tokIssue{}, announced: map[string]map[string]int{}, intro: map[string]bool{}, answered: map[string]bool{}, nextPt: 10000}
+	sc := &srvScen{r: r, o: o, mute: o.mute, tokens: map[string][]tokIssue{}, announced: map[string]map[string]int{}, intro: map[string]bool{}, answered: map[string]bool{}, pendingTx: map[string]bool{}, nextPt: 10000}
 	sc.conn = newFakeConn(nil)
 	cfg := baseConfig(sc.conn)
 	cfg.NoSecurity = o.noSecurity
@@ -908,6 +910,9 @@ func (sc *srvScen) oracleTable(before, after dht.VerifTable, removed []dht.Verif
 				ok = true
 			}
 		}
+		if ok && q.y == "r" && !sc.pendingTx[dht.NewAddr(src).String()+"|"+string(q.t)] {
+			sc.viol("C06", "contact entered the routing table through a response that matches no outstanding query of the node (unsolicited or mismatched): "+k)
+		}
 		if ok {
 			sc.intro[k] = true
 		} else {
@@ -975,6 +980,8 @@ func (sc *srvScen) respondingNodeVia(addr *net.UDPAddr, id [20]byte, ro bool, pi
 		return
 	}
 	sc.op(fmt.Sprintf("SRV reg %s %s", addrOp(addr), hx(d.t)), "ok")
+	sc.pendingTx[dht.NewAddr(addr).String()+"|"+string(d.t)] = true
+	defer delete(sc.pendingTx, dht.NewAddr(addr).String()+"|"+string(d.t))
 	if ro, _ := d.v.get("ro").int(); sc.o.passive && ro != 1 {
 		sc.viol("C19", "query sent by a passive node is not marked read-only")
 	}
@@ -987,6 +994,42 @@ func (sc *srvScen) respondingNodeVia(addr *net.UDPAddr, id [20]byte, ro bool, pi
 		sc.viol("C07", "matching reply did not complete the ping")
 	}
 	sc.op(fmt.Sprintf("SRV done %s %s", addrOp(addr), hx(d.t)), "ok")
+}
+
+// The node queries addr but the socket write fails, so nothing is on the wire and the query fails; a
+// datagram then arrives from addr that "answers" exactly that transaction ID. It answers nothing: no
+// query is outstanding, the sender must not be admitted.
+func (sc *srvScen) failedWriteThenReply(addr *net.UDPAddr, id [20]byte) {
+	if sc.dead || sc.isBlocked(addr.IP) {
+		return
+	}
+	var tid atomic.Pointer[[]byte]
+	prev := sc.conn.failWrite
+	sc.conn.failWrite = func(n int, p []byte, a net.Addr) error {
+		if ua, _ := a.(*net.UDPAddr); ua != nil && sameUDP(ua, addr) && tid.Load() == nil {
+			if v, _, err := bdecode(p); err == nil {
+				if t, ok := v.get("t").str(); ok {
+					tt := append([]byte{}, t...)
+					tid.Store(&tt)
+				}
+			}
+			return errors.New("sendto: network is unreachable")
+		}
+		return nil
+	}
+	res := sc.s.Query(context.Background(), dht.NewAddr(addr), "ping", dht.QueryInput{NumTries: 1})
+	sc.conn.failWrite = prev
+	if res.Err == nil {
+		sc.viol("C14", "query whose only write failed reports success")
+	}
+	t := tid.Load()
+	if t == nil {
+		return
+	}
+	sc.ev("query to %s: socket write fails (t=%x); then a response with that t arrives from there", addr, *t)
+	q := &qspec{y: "r", t: *t, rid: &id}
+	sc.inject(addr, q.bval().enc(), "m", q, false, "ok", "nf")
+	sc.r.hist("table-event/reply-after-failed-write")
 }
 
 func (sc *srvScen) addNode(addr *net.UDPAddr, id [20]byte) {
